@@ -21,6 +21,7 @@ import (
 	"sync"
 	"sync/atomic"
 	"time"
+	noderig "verif/h/rig"
 
 	"github.com/aergoio/aergo/v2/syncer"
 	"github.com/aergoio/aergo/v2/types"
@@ -641,6 +642,10 @@ func main() {
 		childMain(os.Args[2:])
 		return
 	}
+	if len(os.Args) > 1 && os.Args[1] == "node" {
+		noderig.ChildMain()
+		return
+	}
 	c := vf.Start("C17", "exploration")
 	skip := readSkip()
 	var list []*Scenario
@@ -737,6 +742,9 @@ func main() {
 			os.WriteFile(kp, full, 0o644)
 			c.Inconclusive(fmt.Sprintf("child ended (%v) without results for scenarios %v; stderr kept in %s; tail:\n%s", werr, missing, kp, tail))
 		}
+	}
+	if c.ReplayPath == "" {
+		runAnchors(c)
 	}
 	// race detector reports (only when built with -race): reports that involve package syncer frames
 	races, _ := filepath.Glob(filepath.Join(dir, "race*"))
